@@ -69,6 +69,37 @@ var c43Passes = [][]byte{[]byte("p1"), []byte("p2"), []byte("a longer passphrase
 
 var c43Comments = []string{"", "key", "user@host", "a comment with spaces", "ünïcode ✓", strings.Repeat("c", 300)}
 
+// c43OpTable maps a drawn index to a point of the operation-kind scale used in
+// c43GenHistory (sign 66..89, list 56..65, remove 26..36, unlock 46..55,
+// lock 39..45, add 0..23, ...).
+var c43OpTable = func() []int {
+	var t []int
+	rep := func(v, n int) {
+		for i := 0; i < n; i++ {
+			t = append(t, v)
+		}
+	}
+	rep(70, 20) // sign
+	rep(60, 9)  // list
+	rep(30, 10) // remove
+	rep(10, 16) // add
+	rep(50, 7)  // unlock
+	rep(40, 6)  // lock
+	rep(92, 4)  // signers
+	rep(98, 3)  // burst
+	rep(95, 3)  // ext
+	rep(37, 2)  // removeAll
+	rep(24, 2)  // addMismatch
+	rep(10, 10) // add
+	// rapid favours small indices and the two ends of a range: interleave the
+	// kinds so that the weights survive whatever the index distribution is
+	out := make([]int, len(t))
+	for i := range t {
+		out[i] = t[(i*37)%len(t)] // len(t) = 92, coprime to 37
+	}
+	return out
+}()
+
 func c43Data(rt *rapid.T, label string) []byte {
 	switch rapid.IntRange(0, 11).Draw(rt, label+".kind") {
 	case 0:
@@ -108,18 +139,43 @@ func c43GenHistory(rt *rapid.T, modes []string, ticks, external bool) *c43Histor
 			ids = append(ids, i)
 		}
 	}
+	// A rough simulation of the agent steers the draws towards interesting
+	// states (it is only a bias: the oracle is the model in c43Run).
+	present := map[int]bool{}
+	simLocked := false
+	var simPass []byte
 	pick := func() int { return rapid.SampledFrom(ids).Draw(rt, "opIdent") }
+	pickHeld := func() int {
+		var held []int
+		for _, x := range ids {
+			if present[x] {
+				held = append(held, x)
+			}
+		}
+		if len(held) > 0 && rapid.IntRange(0, 3).Draw(rt, "preferHeld") != 0 {
+			return rapid.SampledFrom(held).Draw(rt, "heldIdent")
+		}
+		return pick()
+	}
 	passes := c43Passes
 	if external {
 		passes = c43Passes[:3] // ssh-agent refuses an empty passphrase
 	}
 	n := rapid.IntRange(3, 30).Draw(rt, "nops")
 	nticks := 0
+	shortAdded, afterTick := false, false
 	for i := 0; i < n; i++ {
 		var op c43Op
-		k := rapid.IntRange(0, 99).Draw(rt, "opKind")
+		k := c43OpTable[rapid.IntRange(0, len(c43OpTable)-1).Draw(rt, "opKind")]
+		if simLocked && rapid.IntRange(0, 2).Draw(rt, "lockedBias") == 0 {
+			k = 55 // unlock
+		}
+		if ticks && afterTick && rapid.IntRange(0, 3).Draw(rt, "afterTick") != 0 {
+			k = rapid.SampledFrom([]int{70, 70, 60, 30, 92}).Draw(rt, "observe") // sign, list, remove, signers
+		}
+		afterTick = false
 		switch {
-		case k < 26:
+		case k < 24:
 			op.Kind = "add"
 			op.Ident = pick()
 			op.Comment = rapid.SampledFrom(c43Comments).Draw(rt, "comment")
@@ -135,48 +191,74 @@ func c43GenHistory(rt *rapid.T, modes []string, ticks, external bool) *c43Histor
 			default:
 				op.Lifetime = uint32(rapid.IntRange(1, 2).Draw(rt, "short"))
 			}
+			if ticks && rapid.IntRange(0, 2).Draw(rt, "preferShort") != 0 {
+				op.Lifetime = uint32(rapid.IntRange(1, 2).Draw(rt, "short2"))
+			}
+			if op.Lifetime > 0 && op.Lifetime <= 2 {
+				shortAdded = true
+			}
 			if !external {
-				switch rapid.IntRange(0, 11).Draw(rt, "constraint") {
-				case 0:
+				switch rapid.IntRange(0, 15).Draw(rt, "constraint") {
+				case 14:
 					op.Confirm = true
-				case 1:
+				case 15:
 					op.Ext = true
 					op.ExtType = rapid.SampledFrom([]string{"x@verif.test", "restrict-destination-v00@openssh.com", ""}).Draw(rt, "cext")
 					op.ExtBody = rapid.SliceOfN(rapid.Byte(), 0, 20).Draw(rt, "cextBody")
 				}
 			}
-		case k < 29:
+			if !simLocked && !op.Confirm && !op.Ext {
+				present[op.Ident] = true
+			}
+		case k < 26:
 			op.Kind = "addMismatch"
 			op.Ident = pick()
 			op.Comment = "mismatch"
-		case k < 41:
+		case k < 37:
 			op.Kind = "remove"
-			op.Ident = pick()
+			op.Ident = pickHeld()
 			op.AsAgentKey = rapid.Bool().Draw(rt, "asAgentKey")
-		case k < 44:
+			if !simLocked {
+				delete(present, op.Ident)
+			}
+		case k < 39:
 			op.Kind = "removeAll"
-		case k < 52:
+			if !simLocked {
+				present = map[int]bool{}
+			}
+		case k < 46:
 			op.Kind = "lock"
 			op.Pass = rapid.SampledFrom(passes).Draw(rt, "pass")
-		case k < 62:
+			if !simLocked {
+				simLocked, simPass = true, op.Pass
+			}
+		case k < 56:
 			op.Kind = "unlock"
 			op.Pass = rapid.SampledFrom(passes).Draw(rt, "pass")
-		case k < 73:
+			if simLocked && rapid.IntRange(0, 2).Draw(rt, "rightPass") != 0 {
+				op.Pass = simPass
+			}
+			if simLocked && bytes.Equal(op.Pass, simPass) {
+				simLocked = false
+			}
+		case k < 66:
 			op.Kind = "list"
 		case k < 90:
 			op.Kind = "sign"
-			op.Ident = pick()
+			op.Ident = pickHeld()
 			op.Data = c43Data(rt, "data")
 			op.AsAgentKey = rapid.Bool().Draw(rt, "asAgentKey")
 			switch f := rapid.IntRange(0, 9).Draw(rt, "flags"); {
-			case f <= 2:
+			case f <= 1:
 				op.Plain = true
-			case f <= 4:
+			case f <= 3:
 				op.Flags = 0
-			case f <= 6:
+			case f <= 5:
 				op.Flags = ref.SigFlagRSASHA256
-			case f <= 8:
+			case f <= 7:
 				op.Flags = ref.SigFlagRSASHA512
+			case f == 8 && strings.HasPrefix(c43IdentNames[op.Ident], "rsa"):
+				op.Flags = rapid.SampledFrom([]uint32{ref.SigFlagRSASHA256, ref.SigFlagRSASHA512}).Draw(rt, "rsaFlags")
 			default:
 				op.Flags = rapid.SampledFrom([]uint32{1, 6, 8, 256, 512, 1 << 31}).Draw(rt, "oddFlags")
 			}
@@ -187,6 +269,9 @@ func c43GenHistory(rt *rapid.T, modes []string, ticks, external bool) *c43Histor
 		case k < 97:
 			op.Kind = "ext"
 			op.ExtType = rapid.SampledFrom([]string{"query", "session-bind@openssh.com", extEcho, extEmpty, extFail, ""}).Draw(rt, "extType")
+			if h.WrapExt {
+				op.ExtType = rapid.SampledFrom([]string{extEcho, extEmpty, extFail, "query"}).Draw(rt, "extTypeWrapped")
+			}
 			if external {
 				op.ExtType = "unknown-extension@verif.test"
 			}
@@ -195,14 +280,15 @@ func c43GenHistory(rt *rapid.T, modes []string, ticks, external bool) *c43Histor
 			op.Kind = "burst"
 			nb := rapid.SampledFrom([]int{2, 3, 8, 40}).Draw(rt, "burstN")
 			for j := 0; j < nb; j++ {
-				op.Burst = append(op.Burst, c43Burst{Ident: pick(), Data: rapid.SliceOfN(rapid.Byte(), 1, 40).Draw(rt, "bdata")})
+				op.Burst = append(op.Burst, c43Burst{Ident: pickHeld(), Data: rapid.SliceOfN(rapid.Byte(), 1, 40).Draw(rt, "bdata")})
 			}
 		}
-		if ticks && nticks < 2 && rapid.IntRange(0, 7).Draw(rt, "tick") == 0 {
+		h.Ops = append(h.Ops, op)
+		if ticks && shortAdded && nticks < 2 && rapid.IntRange(0, 3).Draw(rt, "tick") == 0 {
 			h.Ops = append(h.Ops, c43Op{Kind: "tick", SleepMS: rapid.SampledFrom([]int{1100, 1100, 600}).Draw(rt, "sleep")})
 			nticks++
+			afterTick = true
 		}
-		h.Ops = append(h.Ops, op)
 	}
 	return h
 }
@@ -331,7 +417,7 @@ func c43Run(w *c43World, h *c43History, progress *atomic.Int64, slack time.Durat
 			}
 		}
 		js, _ := json.Marshal(op)
-		return violationf("mode %s%s, op %d %s: %v%s", h.Mode, map[bool]string{true: "+ext", false: ""}[h.WrapExt], i, c43Abbrev(string(js)), e, extra)
+		return violationf("mode %s%s, op %d %s: %v%s", h.Mode, map[bool]string{true: "+ext", false: ""}[h.WrapExt], i, c42Abbrev(string(js)), e, extra)
 	}
 	for i := range h.Ops {
 		op := &h.Ops[i]
@@ -1001,7 +1087,7 @@ func TestC43(t *testing.T) {
 	modes := []string{"direct", "direct", "client-pipeline", "client-pipeline", "client-serial", "raw", "raw", "refserver-pipeline", "refserver-serial"}
 	var deferred, external []*c43History
 	maxExternal := 40
-	maxDeferred := ev.Scale(48, 400)
+	maxDeferred := ev.Scale(48, 384)
 	stall := 60 * time.Second
 
 	rapid.Check(t, func(rt *rapid.T) {
@@ -1069,7 +1155,7 @@ func c43RunBatch(t *testing.T, c *ev.Collector, dir string, hs []*c43History, st
 	if len(hs) == 0 {
 		return
 	}
-	const wave = 24
+	const wave = 48
 	worlds := make([]*c43World, min(wave, len(hs)))
 	for i := range worlds {
 		w, err := newC43World()
